@@ -272,6 +272,7 @@ void cs_std_S(const cs_scenario *sc, const cs_std *st, int findex, cs_c *S)
 /* ------------------------------------------------------------------ */
 
 double cs_vector_wiggle;
+int cs_vector_on_cal;
 
 int cs_make_params(vnacal_t *vcp, cs_scenario *sc)
 {
@@ -298,8 +299,21 @@ int cs_make_params(vnacal_t *vcp, cs_scenario *sc)
 	    cs_c scale = p->kind == CSP_UNKNOWN ? p->guess_scale : 1.0;
 	    int h;
 	    if (n > 32) n = 32;
+	    if (cs_vector_on_cal && p->kind == CSP_VECTOR) {
+		/* a grid that has the first calibration frequency as an
+		   interior point and the others between its points */
+		n = 0;
+		fv[n++] = 0.8 * fmin;
+		fv[n++] = fmin;
+		for (int i = 0; i + 1 < v->nf; ++i)
+		    fv[n++] = 0.5 * (v->f[i] + v->f[i + 1]);
+		fv[n++] = 1.1 * fmax;
+		fv[n++] = 1.3 * fmax;
+		fv[n++] = 1.6 * fmax;
+	    }
 	    for (int i = 0; i < n; ++i) {
-		fv[i] = n == 1 ? lo : lo + (hi - lo) * i / (n - 1);
+		if (!(cs_vector_on_cal && p->kind == CSP_VECTOR))
+		    fv[i] = n == 1 ? lo : lo + (hi - lo) * i / (n - 1);
 		gv[i] = cs_param_value(v, p, fv[i]) * scale;
 		/* tabulated data that no interpolation window reproduces:
 		   what libvna makes of it depends on the window it picks */
